@@ -604,8 +604,8 @@ class SimpWorld(World):
             elif isinstance(st, ast.Assign) and len(st.targets) == 1 and isinstance(st.targets[0], ast.Name) and st.targets[0].id not in self.env:
                 try:
                     self.env[st.targets[0].id] = self.ev.ev(st.value)
-                except NotConst:
-                    pass
+                except NotConst as e:
+                    self.unevaluated[st.targets[0].id] = str(e)
         if 'expr_simp' not in self.env:
             raise AnalysisError('expression_helper.expr_simp not found')
 
